@@ -105,12 +105,32 @@ def probes(ctx):
     ctx.inline('probe', p)
 
 
+def compile_prop(case, rec):
+    """The same oracle on the documents one MibCompiler.compile() call writes for the whole set (shared parser,
+    symbol-table generator and code generator objects across the modules)."""
+    from vlib.core import Violation
+    mset = case['mset']
+    texts, mm = setcheck.evaluate_compile(mset, genTexts=bool(case.get('genTexts')))
+    rec.evaluated()
+    rec.count('compile-route.sets')
+    if len(mset['modules']) > 1:
+        rec.mark_nontrivial(setcheck.set_digest(['compile', mset]))
+    for backend, facet, detail in mm:
+        root = facet.split('.')[0]
+        if facet in FACETS or root in FACETS:
+            raise Violation('%s:%s' % (backend, facet), detail, case, {'texts': texts})
+
+
 def run(ctx):
     probes(ctx)
     ctx.search('both', cases, prop, ctx.pick(2400, 50000))
-    ctx.search('json', cases, json_prop, ctx.pick(2400, 50000))
+    ctx.search('json', cases, json_prop, ctx.pick(1600, 50000))
+    ctx.search('compile', cases, compile_prop, ctx.pick(1200, 30000))
 
 
 def replay(ctx, data):
     from vlib.core import Recorder
-    prop(data['case'], Recorder(ctx.findings))
+    if data.get('search') == 'compile':
+        compile_prop(data['case'], Recorder(ctx.findings))
+    else:
+        prop(data['case'], Recorder(ctx.findings))
